@@ -368,6 +368,9 @@ def run(prog: Program, col: Collector, tier: str, refs: Optional[Refs] = None, c
     col.rule("R05.14", "whether an input of the term is substituted is decided on the keys of the substitution, never on a collection that holds names of the values", floor=4)
     _c04._substituted_decided_on_keys(prog, col, refs, cat)
 
+    col.rule("R05.15", "a variable bound in one rebuilt element of a tuple of terms is tested against the elements that are copied", floor=1)
+    _binder_in_one_element(prog, col, refs, cat)
+
     # ---------------------------------------------------------------- R05.2
     col.rule("R05.2", "every constructed term is mangled: all bound names, fresh names, rebuilt through reflect", floor=6)
     _mangle(prog, col, refs)
@@ -845,3 +848,88 @@ def _fresh_and_bound_disjoint(prog: Program, col: Collector, refs: Refs, cat: Ca
                   f"both the fresh names and the bound names are drawn from `{both[0] if both else ''}`: the names are declared as inputs of the term and as hidden binders at once, so "
                   "alpha-renaming renames an INPUT - the lazily built term has input `<name>__BOUND_n` and has lost the input the user named", init.loc(call))
     col.cur.analysed["constructors_with_fresh_and_bound"] = n
+
+
+# ---------------------------------------------------------------------- R05.15 binding a variable in one element of a tuple of terms
+
+
+def _binder_in_one_element(prog: Program, col: Collector, refs: Refs, cat: Catalogue):
+    """A rule that rebuilds a tuple of terms as `T[:i] + (new,) + T[i+1:]` where `new` binds a variable (Lambda(v, ...), .reduce(op, v))
+    that the old element had free removes that variable from ONE element.  The others are copied as they are; if one of them
+    mentions the variable it stays free in the result although the term being rewritten bound it (its declared inputs do not have
+    it).  The rule has to test the copied elements for the variable and decline."""
+    n = 0
+    seen = set()
+    for r in cat.registrations:
+        f = r.target
+        if f is None or isinstance(f.node, ast.Lambda) or f.fq in seen or not r.registry.startswith("funsor.interpretations."):
+            continue
+        seen.add(f.fq)
+        defs = {}
+        for st in walk_no_nested(f.node):
+            if isinstance(st, ast.Assign) and len(st.targets) == 1 and isinstance(st.targets[0], ast.Name):
+                defs.setdefault(st.targets[0].id, []).append(st.value)
+
+        def expand(e, depth=0):
+            out = [e]
+            if depth > 4:
+                return out
+            for x in ast.walk(e):
+                if isinstance(x, ast.Name) and x.id in defs:
+                    for d in defs[x.id]:
+                        out += expand(d, depth + 1)
+            return out
+
+        for node in walk_no_nested(f.node):
+            if not (isinstance(node, ast.BinOp) and isinstance(node.op, ast.Add)) or isinstance(f.module.parent.get(node), ast.BinOp):
+                continue
+            terms = []
+            def flat(e):
+                if isinstance(e, ast.BinOp) and isinstance(e.op, ast.Add):
+                    flat(e.left); flat(e.right)
+                else:
+                    terms.append(e)
+            flat(node)
+            heads = [t for t in terms if isinstance(t, ast.Subscript) and isinstance(t.slice, ast.Slice) and t.slice.lower is None and t.slice.upper is not None]
+            tails = [t for t in terms if isinstance(t, ast.Subscript) and isinstance(t.slice, ast.Slice) and t.slice.lower is not None and t.slice.upper is None]
+            mids = [t for t in terms if isinstance(t, ast.Tuple)]
+            if not (heads and tails and mids) or norm(heads[0].value) != norm(tails[0].value):
+                continue
+            coll = norm(heads[0].value)
+            # variables bound in the new element
+            bound = set()
+            for m in mids:
+                for e in expand(m):
+                    for c in ast.walk(e):
+                        if isinstance(c, ast.Call) and (refs.resolve(c.func) or "") == "funsor.terms.Lambda" and c.args:
+                            for e2 in expand(c.args[0]):
+                                for v in ast.walk(e2):
+                                    if isinstance(v, ast.Call) and (refs.resolve(v.func) or "") == "funsor.terms.Variable" and v.args and isinstance(v.args[0], ast.Name):
+                                        bound.add(v.args[0].id)
+                        if isinstance(c, ast.Call) and isinstance(c.func, ast.Attribute) and c.func.attr == "reduce" and len(c.args) >= 2 and isinstance(c.args[1], ast.Name):
+                            bound.add(c.args[1].id)
+            bound &= set(f.params)
+            if not bound:
+                continue
+            n += 1
+            for v in sorted(bound):
+                # a declining guard: an `if` that exits (return None / continue / raise) and whose test reads v against the .inputs of the copied elements
+                guard = None
+                for g in walk_no_nested(f.node):
+                    if not isinstance(g, ast.If):
+                        continue
+                    exits = any(isinstance(st, (ast.Continue, ast.Raise)) or (isinstance(st, ast.Return) and (st.value is None or (isinstance(st.value, ast.Constant) and st.value.value is None)))
+                                for st in g.body)
+                    if not exits:
+                        continue
+                    texts = [x for e in expand(g.test) for x in ast.walk(e)]
+                    reads_v = any(isinstance(x, ast.Name) and x.id == v for x in texts)
+                    reads_inputs = any(isinstance(x, ast.Attribute) and x.attr in ("inputs", "input_vars") for x in texts)
+                    reads_coll = any(isinstance(x, (ast.Attribute, ast.Name)) and norm(x) == coll for x in texts)
+                    if reads_v and reads_inputs and reads_coll:
+                        guard = g
+                col.check(guard is not None, f"{f.fq}::{coll}[:i] + (...) + {coll}[i+1:]::{v}",
+                          f"the rule declines when a copied element of `{coll}` mentions `{v}`",
+                          f"`{v}` is bound in the rebuilt element only (Lambda / reduce), the other elements of `{coll}` are copied unchanged and nothing tests them for `{v}`: if one of them "
+                          f"depends on it the result has `{v}` as a free input that the term being rewritten does not declare", f.loc(node))
+    col.cur.analysed["tuple_splices_with_a_binder"] = n
